@@ -319,6 +319,23 @@ Theorem C13_env_absent_value_is_empty_string :
 Proof. exact cfg_absent_empty. Qed.
 Print Assumptions C13_env_absent_value_is_empty_string.
 
+(* The table the expansion runs on is C20's dispatch table (the labels of getSubstitution's switch,
+   C20_vocabulary_is_dispatch_table) with the three TLS-dependent labels handed in.  Every label
+   it COMPUTES from the request components has, in buildEnv's request environment, exactly the
+   value C13's own documented table lists — for EVERY request and empty value ... *)
+Theorem C13_env_computed_labels_agree :
+  forall empty q key f,
+  In (key, C20_Model.Fn f) cfg_dispatch ->
+  C20_Model.assoc key (cfg_defaults empty q) = Some (f (cfg_renv empty q)).
+Proof. exact cfg_fn_agrees. Qed.
+Print Assumptions C13_env_computed_labels_agree.
+
+(* ... and on plain HTTP the expansion of a configured value is C20's expand_env itself *)
+Theorem C13_env_expansion_is_replacer_model :
+  forall q v, q_tls q = None -> cfg_expand q v = C20_Model.expand_env (cfg_renv CFG_EMPTY q) v.
+Proof. exact cfg_expand_plain_http. Qed.
+Print Assumptions C13_env_expansion_is_replacer_model.
+
 (* building the variables never fails once canSplit has accepted the path (Replace is total) *)
 Theorem C13_env_total :
   forall cs sv r q f, can_split cs r f = true -> exists el, env_list cs sv r q f = Ok el.
@@ -380,6 +397,17 @@ Example C13_env_scheme_vars_nonvacuous :
   | _, _ => False
   end.
 Proof. vm_compute. repeat split; reflexivity. Qed.
+
+Example C13_env_computed_labels_agree_nonvacuous :
+  In (bs "{method}", C20_Model.Fn C20_Model.e_method) cfg_dispatch /\
+  In (bs "{status}", C20_Model.Fn C20_Model.f_status) cfg_dispatch /\
+  C20_Model.assoc (bs "{scheme}") cfg_dispatch = Some C20_Model.Oracle.
+Proof. vm_compute. tauto. Qed.
+
+Example C13_env_expansion_is_replacer_model_nonvacuous :
+  q_tls ex_q = None /\
+  cfg_expand ex_q (bs "{method} {uri} {scheme} {>X-Auth-User}|{tls_cipher}|{port}") = Ok (bs "POST /x.php?a=1 http ||9").
+Proof. vm_compute. split; reflexivity. Qed.
 
 Example C13_env_absent_value_is_empty_string_nonvacuous :
   absent_for ex_q (bs "{>X-Auth-User}") /\ absent_for ex_q (bs "{~nocookie}") /\
